@@ -445,6 +445,9 @@ func (s *sys) mkEvent(op string) event {
 	case op == "RCA-lastsent":
 		e.id = s.lastOrig
 		e.packet = build(2, e.id, s.lastCRData)
+		if s.haveCR && e.id == s.lastCR { // only enabled when they differ; kept consistent anyway
+			e.matchCA, e.renego = true, true
+		}
 	case op == "RCN-lastsent":
 		e.id = s.lastOrig
 		e.packet = build(3, e.id, s.nakBody())
